@@ -486,6 +486,33 @@ def gen_query(rng: core.Rng, spec: List[dict], mode: str) -> dict:
     return {"the": rng.chance(0.15), "sel": sel, "vars": vars_, "cond": c}
 
 
+def sweep_queries(full: bool) -> List[dict]:
+    """exhaustive small scope: every single comparison chain-op-literal and chain-op-chain of one variable, every
+    IN list of one/two literals, and (full) every and_/or_ of two comparisons against the literal 1 / 'abc'"""
+    out = []
+    for sel_c, (sel, _) in VARS.items():
+        cs = [x for x in chains(sel_c) if isinstance(x[1], str)]
+        lits = {"int": [0, 1, 2, 3] if full else [1], "str": ["abc", "Body1", ""] if full else ["abc"]}
+        atoms = []
+        for ch, k in cs:
+            for op in OPS:
+                for v in lits[k]:
+                    out.append({"the": False, "sel": sel, "vars": {sel: sel_c}, "cond": ["cmp", op, ["attr", sel, ch], ["lit", v]]})
+                for ch2, k2 in cs:
+                    if k2 == k and (full or ch2 != ch):
+                        out.append({"the": False, "sel": sel, "vars": {sel: sel_c},
+                                    "cond": ["cmp", op, ["attr", sel, ch], ["attr", sel, ch2]]})
+            atoms.append(["cmp", "<=" if k == "int" else ">=", ["attr", sel, ch], ["lit", lits[k][0] if not full else (1 if k == "int" else "abc")]])
+            out.append({"the": False, "sel": sel, "vars": {sel: sel_c}, "cond": ["in", ["list", lits[k][:2]], ["attr", sel, ch]]})
+            out.append({"the": True, "sel": sel, "vars": {sel: sel_c}, "cond": ["cmp", "==", ["attr", sel, ch], ["lit", lits[k][0]]]})
+        if full:
+            for a in atoms:
+                for b in atoms:
+                    for con in ("and", "or"):
+                        out.append({"the": False, "sel": sel, "vars": {sel: sel_c}, "cond": [con, a, b]})
+    return out
+
+
 # ------------------------------------------------------------------ decision
 KNOWN_BITS = {1: "K_othervar", 2: "K_null", 4: "K_relop", 16: "K_strop", 32: "K_varoperand", 64: "K_noneorder"}
 
@@ -545,7 +572,9 @@ def run(tier: str, seed: int, replay=None) -> int:
     rep.rule = ("corpus first; then per world (random objects of Position/Position4D/Orientation/Pose/World/Body/Handle/Container/"
                 "Connection/Fixed/Prismatic, shared references, None in nullable places in half of the worlds) random conditions "
                 "of depth 0-3 through the public EQL API: 55% restricted to the constructs of F07, 45% with second variables, "
-                "relationship-valued operands, None literals, not_, LIKE/instr, bare attribute, bare variable; 15% the(...). "
+                "relationship-valued operands, None literals, not_, LIKE/instr, bare attribute, bare variable; 15% the(...); plus on two worlds "
+                "(one without, one with None) an exhaustive sweep of every single comparison chain-op-literal / chain-op-chain, IN lists and "
+                "the(==) of every variable type (thorough: all literals, and every and_/or_ of two comparisons). "
                 "distinct = distinct (query, world); non-trivial = result neither empty nor the whole domain, or a the()/error outcome")
     ok_spec, log = core.coq_make(["Base/Sx.vo", "Orm/EqlToSqlSpec.vo"])
     rep.oblige("build:spec", ok_spec, "" if ok_spec else core.first_error(log))
@@ -579,6 +608,9 @@ def run(tier: str, seed: int, replay=None) -> int:
         for wn in range(nworlds):
             wr = rng.fork(wn)
             wi = add_world(gen_world(wr, nulls=(wn % 2 == 1)))
+            if wn < 2:                                         # exhaustive small scope on one world without and one with None
+                for q in sweep_queries(tier != "quick"):
+                    cases.append({"q": q, "w": wi, "src": "gen:sweep"})
             for _ in range(per):
                 mode = "f07" if wr.chance(0.55) else "any"
                 cases.append({"q": gen_query(wr, worlds[wi][0], mode), "w": wi, "src": f"gen:{mode}"})
